@@ -34,6 +34,9 @@ func DefaultGenesis() *GenesisState {
 // Validate performs basic genesis state validation returning an error upon any
 // failure.
 func (gs GenesisState) Validate() error {
+	if gs.Pool == nil {
+		return fmt.Errorf("pool is required")
+	}
 	// Check for duplicated index in node
 	nodeIndexMap := make(map[string]struct{})
 
